@@ -586,11 +586,22 @@ ITERATION_SPECS = {'map': iter_map}
 # --------------------------------------------------------------------------------------------- C19
 def spec_rand(ex, ctx, outcome):
     n = lab(ex)
-    pack = arg(ctx, 'args')
-    r0 = Val.tref(pack)
     h0 = ctx['entry']
-    cnt = h0.llen(r0)
-    a0, a1 = h0.lelt(r0, 0), h0.lelt(r0, 1)
+    pack = [a for a in ctx['args'] if isinstance(a, Pack)]
+    if pack:
+        r0 = Val.tref(pack[0].val)
+        cnt = h0.llen(r0)
+        a0, a1 = h0.lelt(r0, 0), h0.lelt(r0, 1)
+    else:
+        # positional parameters with defaults: an omitted one is not an argument
+        names = [k for k in ctx['env'].vars]
+        given = [z3.Not(z3.Bool('omitted_' + k)) for k in names]
+        cnt = z3.Sum([z3.If(g, 1, 0) for g in given]) if given else z3.IntVal(0)
+        vals = [ex.to_val(ctx['env'].vars[k]) for k in names] + [L.NoneV, L.NoneV]
+        a0, a1 = vals[0], vals[1]
+        # arguments are given left to right
+        for i in range(1, len(given)):
+            ex.assume(z3.Implies(given[i], given[i - 1]))
     rnd = ev(ex, 'random')
 
     def intvalued(v):
